@@ -940,6 +940,9 @@ class Interp:
         return out
 
     def compare(self, op, a, b, node):
+        if isinstance(op, (ast.Is, ast.IsNot)) and (a is None or b is None):
+            r = a is b
+            return r if isinstance(op, ast.Is) else not r
         if hasattr(a, "skv_compare"):
             return a.skv_compare(op, b)
         if self.assume_positive is not None and isinstance(a, Poly) and \
